@@ -53,6 +53,7 @@ void harness(void) {
   VASSUME(!(left_shm < 0 && left_sem >= 0));   /* creator meets an existing lock semaphore: CREATE on an existing name */
 #endif
   /* ---- documented clean-up by a fresh process ---- */
+  vk_no_rescuer = 1;            /* everybody else is dead: nothing in the clean-up may wait for a semaphore */
   vk_cur = 0;
   unsigned long s1 = (unsigned long) ND_RANGE(1, VK_SEGMAX), s2 = (unsigned long) ND_RANGE(1, VK_SEGMAX);
   PShm *s = p_shm_new("a", s1, ND_PERM(), NULL);
@@ -68,6 +69,7 @@ void harness(void) {
   if (s != NULL) { p_shm_take_ownership(s); p_shm_free(s); }
   if (s != NULL) VASSERT(vk_shm_linked(SHM_SLOT) < 0 && vk_sem_linked(SEM_SLOT) < 0, "owner free removed segment and lock semaphore from the system");
   PShm *c = p_shm_new("a", s2, ND_PERM(), NULL);
+  vk_no_rescuer = 0;
   VASSERT(c != NULL, "clean-up then create again succeeds from every leftover state");
   VASSUME(c != NULL);
   check_fresh(c, s2, left_shm, left_sem, 0);
